@@ -1456,15 +1456,27 @@ func (c *Canonicalizer) funcRefName(f *ssa.Function) string {
 		if pkg == nil && f.Origin() != nil {
 			pkg = f.Origin().Pkg
 		}
+		// The name of an instantiation spells its type arguments, and inside a generic caller
+		// those are the caller's own type parameters by NAME (contains[[]T T]): name the generic
+		// function and render the arguments like any other type.
+		name, full := f.Name(), f.String()
+		if orig := f.Origin(); orig != nil && orig != f && len(f.TypeArgs()) > 0 {
+			var args []string
+			for _, ta := range f.TypeArgs() {
+				args = append(args, sanitizeType(ta))
+			}
+			suffix := "[" + strings.Join(args, ",") + "]"
+			name, full = orig.Name()+suffix, orig.String()+suffix
+		}
 		if cur != nil && pkg != nil && pkg != cur.Pkg {
-			return f.String()
+			return full
 		}
 		// A method of this package is named together with its receiver type: T(3).Foo() and
 		// U(3).Foo() are different callees even when the receiver is a constant.
 		if f.Signature != nil && f.Signature.Recv() != nil {
-			return "(" + sanitizeType(f.Signature.Recv().Type()) + ")." + f.Name()
+			return "(" + sanitizeType(f.Signature.Recv().Type()) + ")." + name
 		}
-		return f.Name()
+		return name
 	}
 	return "$self" + strings.TrimPrefix(f.Name(), root.Name())
 }
@@ -1515,6 +1527,34 @@ func sanitizeType(t types.Type) string {
 		return "chan " + elem
 	case *types.TypeParam:
 		return fmt.Sprintf("$T%d", u.Index())
+	case *types.Interface:
+		// an interface literal spells the parameter names of its methods (interface{ M(x int) })
+		if u.NumExplicitMethods() > 0 {
+			var parts []string
+			for i := 0; i < u.NumEmbeddeds(); i++ {
+				parts = append(parts, sanitizeType(u.EmbeddedType(i)))
+			}
+			for i := 0; i < u.NumExplicitMethods(); i++ {
+				m := u.ExplicitMethod(i)
+				parts = append(parts, m.Name()+strings.TrimPrefix(sanitizeType(m.Type()), "func"))
+			}
+			return "interface{" + strings.Join(parts, "; ") + "}"
+		}
+	case *types.Struct:
+		// ... and a struct literal those of its func-typed fields (struct{ F func(a int) })
+		var parts []string
+		for i := 0; i < u.NumFields(); i++ {
+			f := u.Field(i)
+			part := sanitizeType(f.Type())
+			if !f.Embedded() {
+				part = f.Name() + " " + part
+			}
+			if tag := u.Tag(i); tag != "" {
+				part += " " + strconv.Quote(tag)
+			}
+			parts = append(parts, part)
+		}
+		return "struct{" + strings.Join(parts, "; ") + "}"
 	case *types.Named:
 		if u.TypeArgs().Len() > 0 && u.Obj() != nil {
 			name := u.Obj().Name()
